@@ -109,7 +109,10 @@ class Hist:
     def filler(self, k, calls=True):
         for _ in range(k):
             if calls and self.r.random() < 0.2:
-                self.call(self.g.call())
+                try:
+                    self.call(self.g.call())
+                except ValueError:      # the grammar's int(pay) on a non-decimal digit (see generic_cases)
+                    pass
             else:
                 self.recv(self.g.line() + self.r.choice(["", "", "\n", "\r\n"]), pumps=self.r.choice([0, 1, 2]))
 
@@ -479,3 +482,21 @@ def relocated(case, tag):
         root.mkdir(parents=True, exist_ok=True)
         c["cfg"]["persist"] = str(root / os.path.basename(c["cfg"]["persist"]))
     return c, root
+
+
+def generic_cases(ctx, tag, n, length=(10, 40), mqtt_rate=0.15):
+    """gwcheck.gen_cases, but tolerant of the grammar's rare ValueError (histories.Gen.call does int(pay) on payloads
+    such as a superscript digit for which str.isdigit() is true): such a draw is repeated with the next sub-seed."""
+    from harness import gwcheck
+    cases = []
+    for i in range(n):
+        for attempt in range(20):
+            rng = ctx.rng(tag, i) if attempt == 0 else ctx.rng(tag, i, "retry", attempt)
+            cfg = gwcheck.make_cfg(rng, None, ("sync", "async"), mqtt_rate)
+            try:
+                ops = Gen(rng, cfg).history(rng.randrange(*length))
+            except ValueError:
+                continue
+            cases.append({"id": f"{tag}-{ctx.seed}-{ctx.scale}-{i}", "cfg": cfg, "ops": ops})
+            break
+    return cases
